@@ -84,10 +84,12 @@ pub fn judge_bytes(bytes: &[u8], cfg: Option<&BuildCfg>) -> Result<Vec<(String, 
             };
             let Some(i) = idx else { continue };
             let mode = fl.modes.get(i).copied().unwrap_or(0);
-            if mode & 0o170000 != 0o100000 {
+            let got = fl.digests.get(i).map(|d| lossy(d)).unwrap_or_default();
+            // directories and links may go without a digest; a digest that IS recorded must be the
+            // digest of what the archive holds for that entry, whatever its type
+            if mode & 0o170000 != 0o100000 && got.is_empty() {
                 continue;
             }
-            let got = fl.digests.get(i).map(|d| lossy(d)).unwrap_or_default();
             let want = sha256_hex(&e.data);
             if got != want {
                 v.push(("file-digest:archived-content".to_string(), format!("{}: FILEDIGESTS has {got:?}, the archived content ({} bytes) hashes to {want}", lossy(&fl.paths[i]), e.data.len())));
@@ -187,6 +189,20 @@ fn ladder_cfg(rng: &mut Rng, k: usize) -> BuildCfg {
             mtime: 1_500_000_000,
             verify: None,
         });
+    }
+    // a symbolic link and a directory entry (whatever digest they are given must match the archive)
+    {
+        let mut l = cfg.files[1].clone();
+        l.dest = format!("/opt/ladder/{k}-link");
+        l.mode = Some(0o120777);
+        l.symlink = Some(format!("target-of-{k}"));
+        l.size = 7;
+        cfg.files.push(l);
+        let mut d = cfg.files[1].clone();
+        d.dest = format!("/opt/ladder/{k}-dir");
+        d.mode = Some(0o040755);
+        d.size = 0;
+        cfg.files.push(d);
     }
     // the same path given twice with different content, in three spellings
     if k % 3 == 0 {
